@@ -3,7 +3,7 @@
 //   simcam_vs <config>
 // config:  seed N | strategy ... | pct_depth D | starve T K | spurious K | budget N
 //          kind 0|1|2 | trig 0|1 (software frame trigger enabled by the initial set)
-//          ctl OP...   OP = start | stop | trigger | settrig 0|1 | setshape W H T | yield K | waitidle | waitframes N
+//          ctl OP...   OP = start | stop | trigger | settrig 0|1 | setshape W H T | setline L | yield K | waitidle | waitframes N
 //          caller N    (the caller thread makes up to N get_frame calls per run, then idles until the next run)
 //          out FILE
 // Events carry a sequence number taken at the call's linearization point (last release of the camera lock inside the call,
@@ -224,6 +224,19 @@ controller(void)
             int rc = cam->set(cam, &props);
             snprintf(b, sizeof b, "{\"e\":\"SetTrig\",\"b\":%s,\"rc\":%d}", v ? "true" : "false", rc);
             emit(cur_seq[me], b);
+        } else if (!strcmp(op, "setline")) {
+            // setline L: re-apply the settings with another input line for the frame trigger (the trigger setting stays as it is;
+            // the camera only has the software line 0 and reports that back)
+            props.input_triggers.frame_start.line = (uint8_t)atoi(ctl[++i]);
+            int v = props.input_triggers.frame_start.enable;
+            cur_seq[me] = ++gseq;
+            snprintf(b, sizeof b, "{\"e\":\"SetTrigCall\",\"b\":%s}", v ? "true" : "false");
+            emit(cur_seq[me], b);
+            cur_seq[me] = ++gseq;
+            int rc = cam->set(cam, &props);
+            snprintf(b, sizeof b, "{\"e\":\"SetTrig\",\"b\":%s,\"rc\":%d}", v ? "true" : "false", rc);
+            emit(cur_seq[me], b);
+            cam->get(cam, &props); // continue from what the camera says is in effect
         } else if (!strcmp(op, "setshape")) {
             // setshape W H T: re-configure shape and sample type (the trigger setting stays as it is), possibly while running
             props.shape.x = (uint32_t)atoi(ctl[++i]);
